@@ -60,7 +60,7 @@ fn check_int(v: i32) -> Result<(), String> {
     let is_invalid = matches!(m, FileMode::Invalid { .. });
     match (&t, is_invalid) {
         (Ok(x), false) if *x == m => {}
-        (Err(rpm::Error::InvalidFileMode { .. }), true) => {}
+        (Err(_), true) => {}
         _ => return Err(format!("try_from_raw({v}) = {:?} but From<i32> = {m:?}", t.as_ref().map_err(|e| e.to_string()))),
     }
     if (0..=65535).contains(&v) {
